@@ -308,8 +308,12 @@ class Reader:
                         sign = "+"
                     base = "d"
 
-        ioffset = int(offset)
-        iwidth = int(width)
+        try:
+            ioffset = int(offset)
+            iwidth = int(width)
+        except ValueError:
+            # int() refuses digit strings beyond the interpreter's conversion limit
+            raise dns.exception.SyntaxError("$GENERATE modifier out of range")
 
         if sign not in ["+", "-"]:
             raise dns.exception.SyntaxError(f"invalid offset sign {sign}")
